@@ -117,9 +117,10 @@ Proof. intros. cbn. replace (32 <=? w) with true by (symmetry; apply Z.leb_le; l
 Lemma cast_ok T T0 x : ok T x = true -> (int_ty T = true \/ T = CBool \/ ptr_ty T = true \/ T = CFlt) ->
   cast T (T0, x) = (T, x).
 Proof.
-  intros Hx HT. destruct T as [w sg | | sz |]; cbn in *.
+  intros Hx HT. destruct T as [w sg | | sz | |]; cbn in *.
   - destruct HT as [HT | [HT | [HT | HT]]]; try discriminate. rewrite norm_id; auto.
   - bools; subst; reflexivity.
+  - reflexivity.
   - reflexivity.
   - reflexivity.
 Qed.
@@ -351,7 +352,7 @@ Ltac std_unfold :=
 
 Ltac simp :=
   cbv beta zeta;
-  cbn [cast fst snd is_integral unsigned_of r_st r_ret r_a1 obind arg_ty Z.eqb Pos.eqb].
+  cbn [cast fst snd is_integral unsigned_of widen_flt r_st r_ret r_a1 obind arg_ty Z.eqb Pos.eqb].
 
 Ltac expose :=
   autounfold with c19gen; std_unfold; unfold clit, int_t, ptrdiff_t, ctrue, cfalse, cvoid; simp.
@@ -444,7 +445,7 @@ Proof. intros H o vol f Hs Hf. rewrite (H o Hs) in Hf. discriminate. Qed.
 Ltac agree_int :=
   intros o vol f Hsel Hf; destruct o; cbn in Hsel; try discriminate; cbn in Hf; try discriminate; injection Hf as <-; destruct vol;
   (eexists; split; [reflexivity|]); intros S T spur v a1 a2 HQ HS HT Hv H1 H2;
-  (destruct T as [w sg| | |]; try discriminate); cbn in HT, Hv, H1, H2; unfold wraps, any_sem in HS;
+  (destruct T as [w sg| | | |]; try discriminate); cbn in HT, Hv, H1, H2; unfold wraps, any_sem in HS;
   destruct HQ as [HQ HG]; try (rewrite (HQ eq_refl)); int_exec.
 
 Ltac no_flag_ops := apply agrees_for_none; intros o Ho; destruct o; try discriminate; reflexivity.
@@ -472,7 +473,7 @@ Qed.
 Ltac agree_int_guarded :=
   intros o vol f Hsel Hf; destruct o; cbn in Hsel; try discriminate; cbn in Hf; try discriminate; injection Hf as <-; destruct vol;
   (eexists; split; [reflexivity|]); intros S T spur v a1 a2 HQ HS HT Hv H1 H2;
-  (destruct T as [w sg| | |]; try discriminate); cbn in HT, Hv, H1, H2;
+  (destruct T as [w sg| | | |]; try discriminate); cbn in HT, Hv, H1, H2;
   destruct HQ as [HQ HG]; destruct sg; cbn [no_signed_overflow arith_of] in HG; try (rewrite (HQ eq_refl)); int_exec.
 
 Lemma fiber_int_agrees_guarded : agrees_on (impl_q no_signed_overflow) any_sem KInt fiber_int.
@@ -499,7 +500,7 @@ Qed.
 Ltac agree_ptr :=
   intros o vol f Hsel Hf; destruct o; cbn in Hsel; try discriminate; cbn in Hf; try discriminate; injection Hf as <-; destruct vol;
   (eexists; split; [reflexivity|]); intros S T spur v a1 a2 HQ HS HT Hv H1 H2;
-  (destruct T as [| |sz|]; try discriminate); cbn [ok arg_ty] in Hv, H1, H2; unfold ptrdiff_t in H1; cbn [ok] in H1;
+  (destruct T as [| |sz| |]; try discriminate); cbn [ok arg_ty] in Hv, H1, H2; unfold ptrdiff_t in H1; cbn [ok] in H1;
   destruct HQ as [HQ _]; try (rewrite (HQ eq_refl)); conc_exec.
 
 (* pointer ++x / x++ / --x / x-- *)
@@ -568,7 +569,7 @@ Lemma wrapped_int_agrees (G : opn -> cty -> Z -> Z -> Prop) P I : (forall T v a,
 Proof.
   intros HGL HI o vol f Hf; destruct o; cbn in Hf; try discriminate; injection Hf as <-; destruct vol;
   (eexists; split; [reflexivity|]); intros S T spur v a1 a2 HG HS HT Hv H1 H2;
-  (destruct T as [w sg| | |]; try discriminate); cbn [ok arg_ty] in Hv, H1, H2; assert (Hw : int_width w = true) by exact HT;
+  (destruct T as [w sg| | | |]; try discriminate); cbn [ok arg_ty] in Hv, H1, H2; assert (Hw : int_width w = true) by exact HT;
   wrap_exec HI.
 Qed.
 
@@ -593,7 +594,7 @@ Lemma wrapped_ptr_agrees (G : opn -> cty -> Z -> Z -> Prop) P I : (forall T v a,
 Proof.
   intros HGL HI o vol f Hf; destruct o; cbn in Hf; try discriminate; injection Hf as <-; destruct vol;
   (eexists; split; [reflexivity|]); intros S T spur v a1 a2 HG HS HT Hv H1 H2;
-  (destruct T as [| |sz|]; try discriminate); cbn [ok arg_ty] in Hv, H1, H2; unfold ptrdiff_t in H1; cbn [ok] in H1;
+  (destruct T as [| |sz| |]; try discriminate); cbn [ok arg_ty] in Hv, H1, H2; unfold ptrdiff_t in H1; cbn [ok] in H1;
   wrap_exec HI.
 Qed.
 
@@ -645,7 +646,7 @@ Lemma fiber_backend_agrees k : agrees wraps k (impl_of BFiber k).
 Proof. apply wrapped_agrees, fiber_agrees0. Qed.
 
 Lemma no_overflow_load T v a : no_signed_overflow Load T v a.
-Proof. destruct T as [w [|] | | |]; exact I. Qed.
+Proof. destruct T as [w [|] | | | |]; exact I. Qed.
 
 Lemma fiber_backend_int_guarded :
   agrees_on (fun o _ T v a => no_signed_overflow o T v a) any_sem KInt (impl_of BFiber KInt).
@@ -662,7 +663,7 @@ Lemma std_total k o f S T spur v a1 a2 :
 Proof.
   intros Hf HT Hv H1 H2.
   destruct k; destruct o; cbn in Hf; try discriminate; injection Hf as <-;
-    (destruct T as [w sg | | sz |]; try discriminate); cbn [ty_of] in HT; std_unfold; cbn [arg_ty] in H1;
+    (destruct T as [w sg | | sz | |]; try discriminate); cbn [ty_of] in HT; std_unfold; cbn [arg_ty] in H1;
     try destruct spur; try (destruct (v =? a1));
     (eexists; split; [reflexivity|]); cbn [r_st fst snd ok]; auto;
     try (apply norm_in; assumption); try (apply (norm_in 64 false); reflexivity).
@@ -738,7 +739,7 @@ Qed.
 Lemma init_stores k S T spur v a1 a2 : ty_of k T = true -> ok T a1 = true -> fiber_init S T spur v a1 a2 = Some (a1, 0, a1).
 Proof.
   intros HT H1. unfold fiber_init. expose.
-  destruct k, T as [w sg | | sz |]; try discriminate; cbn [ty_of] in HT; cbn [ok] in H1; cbn [cast fst snd]; norms; try reflexivity;
+  destruct k, T as [w sg | | sz | |]; try discriminate; cbn [ty_of] in HT; cbn [ok] in H1; cbn [cast fst snd]; norms; try reflexivity;
     cbn in H1; bools; subst; reflexivity.
 Qed.
 
